@@ -13,6 +13,8 @@ import (
 	"time"
 
 	"github.com/aptpod/iscp-go/encoding"
+	"github.com/aptpod/iscp-go/iscp"
+	"verif.local/harness/broker"
 	"github.com/aptpod/iscp-go/message"
 	"github.com/aptpod/iscp-go/transport"
 	"github.com/aptpod/iscp-go/transport/multi"
@@ -313,6 +315,119 @@ func wMulti(d time.Duration) {
 	}
 }
 
+// W-conn: a real Conn with upstreams and a downstream carrying traffic from several goroutines while the transport is killed
+// repeatedly (reconnect + resume of every stream), metadata and calls in flight, then Close.
+func wConn(d time.Duration) {
+	deadline := time.Now().Add(d)
+	for time.Now().Before(deadline) {
+		b := broker.New()
+		b.AssignAliases = true
+		b.Register()
+		conn, err := iscp.Connect("mem", broker.TransportName, iscp.WithConnPingInterval(5*time.Millisecond), iscp.WithConnPingTimeout(time.Second))
+		if err != nil {
+			panic(err)
+		}
+		ctx, cancel := context.WithTimeout(context.Background(), 3*time.Second)
+		var ups []*iscp.Upstream
+		for k := 0; k < 2; k++ {
+			q := message.QoSReliable
+			if k == 1 {
+				q = message.QoSUnreliable
+			}
+			up, err := conn.OpenUpstream(ctx, "s", iscp.WithUpstreamFlushPolicyImmediately(), iscp.WithUpstreamQoS(q), iscp.WithUpstreamCloseTimeout(200*time.Millisecond))
+			if err != nil {
+				panic(err)
+			}
+			ups = append(ups, up)
+		}
+		down, err := conn.OpenDownstream(ctx, []*message.DownstreamFilter{{SourceNodeID: "n", DataFilters: []*message.DataFilter{{Name: "#", Type: "#"}}}})
+		if err != nil {
+			panic(err)
+		}
+		stop := make(chan struct{})
+		var wg sync.WaitGroup
+		for _, up := range ups {
+			up := up
+			for g := 0; g < 2; g++ {
+				wg.Add(1)
+				go func(g int) {
+					defer wg.Done()
+					for j := 0; ; j++ {
+						select {
+						case <-stop:
+							return
+						default:
+						}
+						c, cc := context.WithTimeout(ctx, 50*time.Millisecond)
+						up.WriteDataPoints(c, &message.DataID{Name: fmt.Sprint("n", g), Type: "t"}, &message.DataPoint{ElapsedTime: time.Duration(j), Payload: []byte{1}})
+						up.State()
+						cc()
+					}
+				}(g)
+			}
+		}
+		wg.Add(3)
+		go func() { // reads
+			defer wg.Done()
+			for {
+				select {
+				case <-stop:
+					return
+				default:
+				}
+				c, cc := context.WithTimeout(ctx, 20*time.Millisecond)
+				down.ReadDataPoints(c)
+				down.State()
+				cc()
+			}
+		}()
+		go func() { // metadata + calls
+			defer wg.Done()
+			for {
+				select {
+				case <-stop:
+					return
+				default:
+				}
+				c, cc := context.WithTimeout(ctx, 30*time.Millisecond)
+				conn.SendBaseTime(c, &message.BaseTime{Name: "b"})
+				conn.SendCall(c, &iscp.UpstreamCall{DestinationNodeID: "x", Name: "n"})
+				cc()
+			}
+		}()
+		go func() { // broker pushes downstream chunks on whatever incarnation is current
+			defer wg.Done()
+			for j := uint32(1); ; j++ {
+				select {
+				case <-stop:
+					return
+				default:
+				}
+				if inc := b.Cur(); inc != nil {
+					inc.Send(&message.DownstreamChunk{StreamIDAlias: 1, UpstreamOrAlias: &message.UpstreamInfo{SessionID: "s", SourceNodeID: "n", StreamID: uuid.UUID{1}},
+						StreamChunk: &message.StreamChunk{SequenceNumber: j, DataPointGroups: []*message.DataPointGroup{{DataIDOrAlias: &message.DataID{Name: "a", Type: "t"}, DataPoints: []*message.DataPoint{{Payload: []byte{2}}}}}}})
+				}
+				time.Sleep(200 * time.Microsecond)
+			}
+		}()
+		for k := 0; k < 3; k++ {
+			time.Sleep(25 * time.Millisecond)
+			if inc := b.Cur(); inc != nil {
+				inc.Kill()
+			}
+		}
+		time.Sleep(40 * time.Millisecond)
+		c2, cc2 := context.WithTimeout(context.Background(), 300*time.Millisecond)
+		ups[0].Close(c2)
+		down.Close(c2)
+		conn.Close(c2)
+		cc2()
+		close(stop)
+		wg.Wait()
+		cancel()
+	}
+}
+
 func main() {
 	w := flag.String("w", "wire", "workload")
 	ms := flag.Int("ms", 1500, "duration in ms")
@@ -321,6 +436,8 @@ func main() {
 	switch *w {
 	case "wire":
 		wWire(d)
+	case "conn":
+		wConn(d)
 	case "wireclose":
 		wWireClose(d)
 	case "rec":
